@@ -7,7 +7,8 @@ def ucells(am, origin=False):
         q = list(range(1, len(types) + 1))
         if setting:            # centring-equivalent atoms must be identical
             q = [7] * len(types)
-        atoms = am.Atoms(atype=types, pos=np.array(rel, dtype=float) / dd, q=np.array(q, dtype=int))
+        atoms = am.Atoms(atype=types, pos=np.array(rel, dtype=float) / dd, q=np.array(q, dtype=int),
+                         w=np.outer(np.array(q, dtype=float), [1.0, -0.5, 0.25]))   # vector property tied to q
         if origin:
             box = am.Box(vects=box.vects, origin=np.array([0.5, -0.5, 0.5]) @ box.vects)   # lattice-commensurate (dd is even)
         s = am.System(atoms=atoms, box=box, scale=True, symbols=['Al', 'Cu'][:max(types)])
